@@ -200,6 +200,28 @@
 */
 /* VERIF-UNIT
 {
+ "name": "punch_ind",
+ "props": ["C09"],
+ "level": "U/k",
+ "tier": "wip",
+ "harness": "h_punch_ind",
+ "enforce": ["ext2fs_punch_ind"],
+ "replace": ["ind_punch"],
+ "unwindset": {"ext2fs_punch_ind.0": 5},
+ "unwind_reason": "the loop of ext2fs_punch_ind runs over the 4 mapping levels (direct, ind, dind, tind): constant 4, unwinding assertion on",
+ "functions": ["lib/ext2fs/punch.c:ext2fs_punch_ind"],
+ "assumes": ["blocksize 1024 (256 addresses per block)",
+             "ind_punch replaced by its contract (proved by the eight ind_punch_l* units)",
+             "the ghost logical block lives in tree T (0 direct .. 3 triple indirect); no multiply-referenced indirect block: the roots of the OTHER trees are not blocks of the ghost path",
+             "block_buf is NULL (the function allocates 3 blocks; allocation may fail) or a caller buffer of 3 blocks",
+             "FAILS on the pinned tree: finding C09_punch_ind_cross (a range that starts in one tree and ends inside the next is cut at the tree boundary)"],
+ "native": false,
+ "timeout": 600,
+ "backend": "cadical"
+}
+*/
+/* VERIF-UNIT
+{
  "name": "check_zero_block",
  "props": ["C09"],
  "level": "U/k",
@@ -215,6 +237,10 @@
 }
 */
 #include "punch_common.h"
+#ifndef PUNCH_LEVEL		/* units that do not run h_ind_punch */
+#define PUNCH_LEVEL 0
+#define PUNCH_MAX 12
+#endif
 
 /* ------------------------------------------------------------------ in-place loop contract of ind_punch's slot loop
  * (the repository only names the loop; the text lives here because it speaks about this unit's ghost path) */
@@ -271,10 +297,29 @@ static errcode_t ind_punch(ext2_filsys fs, struct ext2_inode *inode, char *block
 	ENSURES(g_relB >= OLD(g_relB) && g_badrel == OLD(g_badrel))
 	ENSURES(UNREACHED(OLD, level));
 
+/* ------------------------------------------------------------------ ext2fs_punch_ind: file-relative range [start, end]
+ * g_T = tree of the ghost logical block; its top slot is i_block[g_K0] (T == 0) or i_block[11 + T]. */
+unsigned int g_T;
+#define TI		(g_T == 0 ? g_K0 : 11u + g_T)
+#define PE(end)		((end) >= (1ULL << 33) ? (1ULL << 33) : (end) + 1)		/* one past the end, saturated */
+#define ST(start)	((start) > C09_BASE(g_T) ? (start) - C09_BASE(g_T) : (c09_u64)0)	/* range relative to tree T */
+#define ET(end)		(PE(end) > C09_BASE(g_T) ? PE(end) - C09_BASE(g_T) : (c09_u64)0)
+static errcode_t ext2fs_punch_ind(ext2_filsys fs, struct ext2_inode *inode, char *block_buf, blk64_t start, blk64_t end)
+	REQUIRES(fs->blocksize == 1024 && fs->super->s_log_block_size == 0)
+	REQUIRES(g_T <= 3 && (g_T == 0 ? g_K0 < C09_NDIR : G_K(g_T) == 0))
+	REQUIRES(start <= end)
+	ASSIGNS(GHOSTS; *(struct blk12 *)inode->i_block; inode->i_block[12]; inode->i_block[13]; inode->i_block[14];
+		block_buf != 0: *(struct blk3k *)block_buf)
+	/* the top slot of the ghost block's tree, and everything below it on the ghost path, follow the specification */
+	ENSURES(RET != 0 || SPECL(OLD, g_T, inode->i_block[TI], OLD(inode->i_block[TI]), ST(start), ET(end)))
+	ENSURES(RET == 0 || ERRSPEC(OLD, g_T, inode->i_block[TI], OLD(inode->i_block[TI]), ST(start), ET(end)))
+	ENSURES(RET != 0 || g_rel - OLD(g_rel) == g_isub - OLD(g_isub))
+	ENSURES(g_badrel == OLD(g_badrel));
+
 #include "lib/ext2fs/punch.c"
 
 /* harness snapshots for the CHECKs */
-static unsigned int h_g_dv0, h_g_dv1, h_g_dv2, h_g_wr0, h_g_wr1, h_g_wr2;
+static unsigned int h_g_dv0, h_g_dv1, h_g_dv2, h_g_wr0, h_g_wr1, h_g_wr2, h_g_az0, h_g_az1, h_g_az2;
 static unsigned long long h_g_relB;
 #define HS(x) h_##x
 
@@ -308,7 +353,7 @@ void h_ind_punch(void)
 	unsigned int v0 = (int)k < max ? p[k] : 0;
 	unsigned long long s = IN.start, e = IN.start + IN.count;
 	h_g_dv0 = g_dv0; h_g_dv1 = g_dv1; h_g_dv2 = g_dv2; h_g_wr0 = g_wr0; h_g_wr1 = g_wr1; h_g_wr2 = g_wr2;
-	h_g_relB = g_relB;
+	h_g_relB = g_relB; h_g_az0 = g_az0; h_g_az1 = g_az1; h_g_az2 = g_az2;
 
 	errcode_t r = ind_punch(&FS, &INODE, block_buf, p, level, IN.start, IN.count, max);
 
@@ -356,5 +401,66 @@ void h_check_zero_block(void)
 	CHECK(r == c09_all_zero_1k(buf), "1 iff every byte is zero");
 	if (r) REACH("zero");
 	if (!r) REACH("nonzero");
+	REACH("end");
+}
+
+void h_punch_ind(void)
+{
+	build_ghosts();
+	g_T = IN.T;
+	ASSUME(g_T <= 3 && (g_T == 0 ? g_K0 < C09_NDIR : G_K(g_T) == 0));
+	ASSUME(IN.start <= IN.end);		/* ext2fs_punch rejects start > end */
+	memcpy(INODE.i_block, IN.iblock, sizeof(INODE.i_block));
+	/* no multiply-referenced indirect block: the root of another tree is not a block of the ghost path */
+	ASSUME(g_T == 1 || INODE.i_block[12] != g_PB0);
+	ASSUME(g_T == 2 || INODE.i_block[13] != g_PB1);
+	ASSUME(g_T == 3 || INODE.i_block[14] != g_PB2);
+	char *block_buf = 0;
+	if (IN.top) {
+		block_buf = (char *)(unsigned int *)malloc(sizeof(unsigned int) * 3 * C09_APB);
+		ASSUME(block_buf != 0);
+	}
+	unsigned int ti = TI, v0 = INODE.i_block[ti];
+	unsigned long long s = ST(IN.start), e = ET(IN.end);
+	h_g_dv0 = g_dv0; h_g_dv1 = g_dv1; h_g_dv2 = g_dv2; h_g_wr0 = g_wr0; h_g_wr1 = g_wr1; h_g_wr2 = g_wr2;
+	h_g_relB = g_relB; h_g_az0 = g_az0; h_g_az1 = g_az1; h_g_az2 = g_az2;
+
+	errcode_t r = ext2fs_punch_ind(&FS, &INODE, block_buf, IN.start, IN.end);
+
+	if (r == 0) {
+		unsigned int v = INODE.i_block[ti];
+		CHECK(SPECL(HS, g_T, v, v0, s, e), "ghost path follows the punch specification for [start, end]");
+		if (!C09_HIT(g_T, G_K(g_T), v0, s, e)) {
+			CHECK(v == v0 && FRBELOW(HS, g_T), "tree outside the range untouched");
+			REACH("tree outside the range");
+		} else {
+			if (g_T == 0) { CHECK(v == 0, "direct block in range unmapped"); REACH("direct block in range"); }
+			if (g_T == 1 && v0 == g_PB0) {
+				CHECK(g_wr0 == 1, "indirect block rewritten once");
+				/* the data block: its slot is cleared iff 12 + K0 lies in [start, end] */
+				unsigned long long L = C09_NDIR + g_K0;
+				CHECK(h_g_dv0 == 0 || g_dv0 == (L >= IN.start && L <= IN.end ? 0 : h_g_dv0), "data slot under the indirect block cleared iff in range");
+				REACH("ind tree on the ghost path");
+			}
+			if (g_T == 2 && v0 == g_PB1 && h_g_dv1 == g_PB0) {
+				unsigned long long L = C09_NDIR + C09_APB + ((c09_u64)g_K1 << 8) + g_K0;
+				if (L >= IN.start && L <= IN.end) {
+					CHECK(g_dv1 == 0 || g_dv0 == 0 || h_g_dv0 == 0, "dind: block in range unmapped at some level");
+					REACH("dind tree, block in range");
+				} else {
+					if (h_g_dv0 != 0)
+						CHECK(v == v0 && g_dv1 == h_g_dv1 && g_dv0 == h_g_dv0, "dind: mapped block outside the range keeps its mapping");
+					else
+						CHECK(g_dv1 == 0 || (g_dv1 == h_g_dv1 && g_dv0 == 0), "dind: hole outside the range stays a hole");
+					REACH("dind tree, block outside range");
+				}
+			}
+			if (g_T == 3) REACH("tind tree met");
+		}
+		CHECK(g_rel == g_isub, "i_blocks reduced by the number of blocks released");
+		REACH("success");
+	} else
+		REACH("error");
+	CHECK(g_badrel == 0, "blocks are only ever released");
 	REACH("end");
 }
